@@ -122,6 +122,7 @@ type mapEnt struct {
 type Map struct {
 	kt   types.Type
 	ents []*mapEnt
+	cell Value // stands for the whole map in the race detector
 }
 
 type Chan struct {
